@@ -255,8 +255,9 @@ theorem C07_pubrec_unknown_answered (s : Server) (conn i id rc : Nat) (L : Live 
 `PublishValidate` / `processPublish` for a live network client, computed from the state before the packet:
 `close` (validation error 0x82/0x94, receive quota 0 → 0x93, unbound alias → 0x82, a refused QoS>0 publish of an MQTT 3
 client → 0x90/0x87), `ack t rc` (refused MQTT 5 publish: invalid topic 0x90 / not authorised 0x87 as PUBACK or PUBREC by
-QoS; PUBREC record under the identifier → PUBREC 0x91; hook error code → PUBACK 0x87; accepted → PUBACK `QosCodes[q]` /
-PUBREC 0 by the CLAMPED QoS `q`), `silent` (QoS 0 refusals, rejecting hook, clamped QoS 0). -/
+QoS; PUBREC record under the identifier → PUBREC 0x91; hook error code → PUBACK / PUBREC 0x87 by the CLAMPED QoS `q`;
+accepted → PUBACK `QosCodes[q]` / PUBREC 0 by the CLAMPED QoS `q`), `silent` (QoS 0 refusals, rejecting hook, clamped
+QoS 0). -/
 
 /-- **every exit**: verdict `close` — `closed conn` is emitted; verdict `ack t rc` — the FIRST output of the op is that
     acknowledgement with the request's identifier -/
@@ -287,19 +288,18 @@ theorem C07_publish_qos1_answered_partial (s : Server) (conn i : Nat) (L : Live 
   · exact Or.inr ⟨rc, h2 4 rc h⟩
 
 /-- **QoS 2 → PUBREC with the same identifier (success or failure code, 0x91 when the identifier is in use), or the
-    connection is closed.**  Restrictions: `hclamp` (F07c), `hhook` (rejecting hook), `herr` (a hook error code for an
-    MQTT 5 client is sent as PUBACK whatever the QoS — Go: server.go:951-952 `packets.Puback`; counterexample
-    `C07_hook_error_qos2_puback`). -/
+    connection is closed.**  Restrictions: `hclamp` (F07c), `hhook` (rejecting hook).  A hook error code for an MQTT 5
+    client is sent as PUBREC 0x87 (Go: server.go `processPublish`, the acknowledgement type of the OnPublish error branch
+    is chosen by QoS; history `C07_hook_error_qos2_pubrec`). -/
 theorem C07_publish_qos2_answered_partial (s : Server) (conn i : Nat) (L : Live s conn i) (dup retain : Bool) (id : Nat)
     (topic payload : Str) (me : Nat) (alias : Option Nat)
     (hclamp : 2 ≤ s.caps.maximumQos)
-    (hhook : assocGet s.pubHook (pubTopic s i topic alias) ≠ some "reject")
-    (herr : ¬ (assocGet s.pubHook (pubTopic s i topic alias) = some "err" ∧ (getObj s i).ver = 5)) :
+    (hhook : assocGet s.pubHook (pubTopic s i topic alias) ≠ some "reject") :
     Out.closed conn ∈ (step s (.recv conn (.publish 2 dup retain id topic payload me alias))).2 ∨
     ∃ rc rest, (step s (.recv conn (.publish 2 dup retain id topic payload me alias))).2 =
       .wrote conn (.ack (getObj s i).ver 5 id rc) :: rest := by
   obtain ⟨h1, h2⟩ := step_publish_table L 2 dup retain id topic payload me alias
-  rcases pubVerdict_qos2 s i id topic alias hclamp hhook herr with h | ⟨rc, h⟩
+  rcases pubVerdict_qos2 s i id topic alias hclamp hhook with h | ⟨rc, h⟩
   · exact Or.inl (h1 h)
   · exact Or.inr ⟨rc, h2 5 rc h⟩
 
@@ -357,17 +357,18 @@ def r07History : List Op :=
    .recv 1 (.publish 1 false false 4 [36, 83, 89, 83, 47, 120] [97] 0 none),             -- 10 refused, "$SYS/x": PUBACK 4 0x90
    .recv 1 (.publish 1 false false 5 [120] [97] 0 none),                                 -- 11 refused, ACL: PUBACK 5 0x87
    .recv 1 (.publish 1 false false 6 [101] [97] 0 none),                                 -- 12 refused, hook error: PUBACK 6 0x87
-   .recv 1 (.publish 1 false false 7 [114] [97] 0 none),                                 -- 13 rejecting hook: NOTHING (excluded)
-   .recv 1 (.publish 0 false false 0 [116] [97] 0 none),                                 -- 14 QoS 0: nothing
-   .connect 2 { ver := 5, id := [113] },                                                 -- 15
-   .recv 2 (.publish 1 false false 8 [] [97] 0 (some 3)),                                -- 16 refused, unbound alias: closed
-   .connect 3 { ver := 4, id := [118] },                                                 -- 17
-   .recv 3 (.publish 1 false false 4 [36, 83, 89, 83, 47, 120] [97] 0 none),             -- 18 refused, MQTT 3: closed
-   .connect 4 { ver := 5, id := [119] },                                                 -- 19
-   .recv 4 (.publish 1 false false 0 [116] [97] 0 none),                                 -- 20 PublishValidate (id 0): closed
-   .recv 1 (.publish 2 false false 10 [116] [97] 0 none),                                -- 21 PUBREC 10
-   .recv 1 (.publish 2 false false 11 [116] [97] 0 none),                                -- 22 PUBREC 11 (quota now 0)
-   .recv 1 (.publish 1 false false 12 [116] [97] 0 none)]                                -- 23 refused, quota: closed
+   .recv 1 (.publish 2 false false 13 [101] [97] 0 none),                                -- 13 refused, hook error, QoS 2: PUBREC 13 0x87
+   .recv 1 (.publish 1 false false 7 [114] [97] 0 none),                                 -- 14 rejecting hook: NOTHING (excluded)
+   .recv 1 (.publish 0 false false 0 [116] [97] 0 none),                                 -- 15 QoS 0: nothing
+   .connect 2 { ver := 5, id := [113] },                                                 -- 16
+   .recv 2 (.publish 1 false false 8 [] [97] 0 (some 3)),                                -- 17 refused, unbound alias: closed
+   .connect 3 { ver := 4, id := [118] },                                                 -- 18
+   .recv 3 (.publish 1 false false 4 [36, 83, 89, 83, 47, 120] [97] 0 none),             -- 19 refused, MQTT 3: closed
+   .connect 4 { ver := 5, id := [119] },                                                 -- 20
+   .recv 4 (.publish 1 false false 0 [116] [97] 0 none),                                 -- 21 PublishValidate (id 0): closed
+   .recv 1 (.publish 2 false false 10 [116] [97] 0 none),                                -- 22 PUBREC 10
+   .recv 1 (.publish 2 false false 11 [116] [97] 0 none),                                -- 23 PUBREC 11 (quota now 0)
+   .recv 1 (.publish 1 false false 12 [116] [97] 0 none)]                                -- 24 refused, quota: closed
 
 end Mochi.Broker.R07
 
@@ -390,6 +391,7 @@ theorem C07_demo_answers : answers r07S0 r07History =
      [.wrote 1 (.ack 5 4 4 0x90)],
      [.wrote 1 (.ack 5 4 5 0x87)],
      [.wrote 1 (.ack 5 4 6 0x87)],
+     [.wrote 1 (.ack 5 5 13 0x87)],
      [],
      [],
      [.wrote 2 (.connack 5 false 0 2 2 none)],
@@ -433,10 +435,11 @@ theorem C07_F07d_counterexample :
   decide
 
 set_option maxRecDepth 1000000 in
-/-- a hook error code for an MQTT 5 client is sent as PUBACK also for a QoS 2 PUBLISH (Go: server.go:951-952) -/
-theorem C07_hook_error_qos2_puback :
+/-- a hook error code for an MQTT 5 client refuses a QoS 2 PUBLISH with PUBREC 0x87 (Go: server.go `processPublish`,
+    OnPublish error branch: PUBACK for QoS 1, PUBREC for QoS 2) -/
+theorem C07_hook_error_qos2_pubrec :
     answers r07S0 [.connect 1 r07P, .recv 1 (.publish 2 false false 6 [101] [97] 0 none)] =
-      [[.wrote 1 (.connack 5 false 0 2 2 none)], [.wrote 1 (.ack 5 4 6 0x87)]] := by decide
+      [[.wrote 1 (.connack 5 false 0 2 2 none)], [.wrote 1 (.ack 5 5 6 0x87)]] := by decide
 
 set_option maxRecDepth 1000000 in
 /-- a rejecting hook: a QoS 1 PUBLISH is not answered and the connection stays open (Go: server.go:947-948; excluded by
@@ -484,7 +487,6 @@ theorem C07_every_request_answered_seq (caps : Caps) (s : Server) (_hr : ReachSe
         .wrote conn (.ack (getObj s i).ver 4 id rc) :: rest) ∧
     (∀ dup retain id topic payload me alias, 2 ≤ s.caps.maximumQos →
       assocGet s.pubHook (pubTopic s i topic alias) ≠ some "reject" →
-      ¬ (assocGet s.pubHook (pubTopic s i topic alias) = some "err" ∧ (getObj s i).ver = 5) →
       Out.closed conn ∈ (step s (.recv conn (.publish 2 dup retain id topic payload me alias))).2 ∨
       ∃ rc rest, (step s (.recv conn (.publish 2 dup retain id topic payload me alias))).2 =
         .wrote conn (.ack (getObj s i).ver 5 id rc) :: rest) ∧
@@ -502,8 +504,8 @@ theorem C07_every_request_answered_seq (caps : Caps) (s : Server) (_hr : ReachSe
     fun id fs h => C07_unsubscribe_answered s conn i id fs L h,
     fun dup retain id topic payload me alias h1 h2 h3 =>
       C07_publish_qos1_answered_partial s conn i L dup retain id topic payload me alias h1 h2 h3,
-    fun dup retain id topic payload me alias h1 h2 h3 =>
-      C07_publish_qos2_answered_partial s conn i L dup retain id topic payload me alias h1 h2 h3,
+    fun dup retain id topic payload me alias h1 h2 =>
+      C07_publish_qos2_answered_partial s conn i L dup retain id topic payload me alias h1 h2,
     fun id topic alias h t rc g => ?_,
     fun id rc h => C07_pubrel_answered_partial s conn i id rc L h,
     fun id rc h => C07_pubrec_answered_partial s conn i id rc L h,
